@@ -840,6 +840,12 @@ fn dump_consts<'tcx>(tcx: TyCtxt<'tcx>) -> J {
         o.set("name", J::Str(name));
         let ty = tcx.type_of(did).instantiate_identity().skip_norm_wip();
         o.set("ty", J::Str(ty_str(ty)));
+        if matches!(kind, DefKind::Static { .. }) {
+            // statics (e.g. the cell behind a thread_local!) are not evaluated: no rule reads them
+            o.set("static", J::Bool(true));
+            out.push(o);
+            continue;
+        }
         if let Ok(v) = tcx.const_eval_poly(did) {
             match v {
                 mir::ConstValue::Scalar(mir::interpret::Scalar::Int(si)) => {
